@@ -49,7 +49,7 @@ ASSUMPTIONS = [
 ]
 PROFILE = {
     "quick": dict(examples=6000, shards=16, budget_s=90),
-    "thorough": dict(examples=50000, shards=16, budget_s=900),
+    "thorough": dict(examples=100000, shards=16, budget_s=900),
 }
 
 ENC = {
